@@ -3,6 +3,7 @@ package rules
 import (
 	"fmt"
 	"go/constant"
+	"go/token"
 	"go/types"
 	"sort"
 	"strings"
@@ -54,6 +55,66 @@ func endianOf(ci ssa.CallInstruction) (endian, method string) {
 	return "", ""
 }
 
+// evalIntEnv evaluates an integer expression over constants and parameters bound to constants (helper calls with constant
+// arguments: `offset := 1 + index*8`).
+func evalIntEnv(v ssa.Value, env map[*ssa.Parameter]int64, d int) (int64, bool) {
+	if d > 8 {
+		return 0, false
+	}
+	switch x := v.(type) {
+	case *ssa.Const:
+		return constIntOf(x)
+	case *ssa.Parameter:
+		k, ok := env[x]
+		return k, ok
+	case *ssa.Convert:
+		return evalIntEnv(x.X, env, d+1)
+	case *ssa.ChangeType:
+		return evalIntEnv(x.X, env, d+1)
+	case *ssa.BinOp:
+		a, ok1 := evalIntEnv(x.X, env, d+1)
+		b, ok2 := evalIntEnv(x.Y, env, d+1)
+		if !ok1 || !ok2 {
+			return 0, false
+		}
+		switch x.Op {
+		case token.ADD:
+			return a + b, true
+		case token.SUB:
+			return a - b, true
+		case token.MUL:
+			return a * b, true
+		}
+	}
+	return 0, false
+}
+
+// constEnv binds the parameters of a static callee to the constant arguments of one call.
+func constEnv(call *ssa.Call) map[*ssa.Parameter]int64 {
+	env := map[*ssa.Parameter]int64{}
+	f := call.Call.StaticCallee()
+	for i, p := range f.Params {
+		if i < len(call.Call.Args) {
+			if k, ok := evalIntEnv(call.Call.Args[i], nil, 0); ok {
+				env[p] = k
+			}
+		}
+	}
+	return env
+}
+
+func moduleHelperCall(v ssa.Value) (*ssa.Call, *ssa.Function) {
+	call, ok := v.(*ssa.Call)
+	if !ok || call.Call.IsInvoke() {
+		return nil, nil
+	}
+	f := call.Call.StaticCallee()
+	if f == nil || !prog.InModule(f) || f.Blocks == nil {
+		return nil, nil
+	}
+	return call, f
+}
+
 // EncodeDecodeAgreement: C11.O1 and O2 for one state type.
 func (c *Ctx) EncodeDecodeAgreement(prop string, s *Slashing, state *types.Named, legacy map[string]bool) {
 	rule := "C11.O1 encode/decode"
@@ -100,6 +161,27 @@ func (c *Ctx) EncodeDecodeAgreement(prop string, s *Slashing, state *types.Named
 		}
 	} else if mk, ok := buf.(*ssa.MakeSlice); ok {
 		encLen, _ = constIntOf(mk.Len)
+	} else if call, h := moduleHelperCall(buf); h != nil {
+		// the buffer comes from a constructor helper: `make([]byte, size)` with the version byte stored at [0]
+		env := constEnv(call)
+		for _, ret := range an.Returns(h) {
+			if mk, ok := an.Result(ret, 0).(*ssa.MakeSlice); ok {
+				if n, ok := evalIntEnv(mk.Len, env, 0); ok {
+					encLen = n
+				}
+				for _, r := range *mk.Referrers() {
+					if ia, ok := r.(*ssa.IndexAddr); ok {
+						if idx, ok := constIntOf(ia.Index); ok && idx == 0 {
+							for _, r2 := range *ia.Referrers() {
+								if st, ok := r2.(*ssa.Store); ok && st.Addr == ssa.Value(ia) {
+									encVersion, _ = constIntOf(st.Val)
+								}
+							}
+						}
+					}
+				}
+			}
+		}
 	}
 	for _, b := range enc.Blocks {
 		for _, ins := range b.Instrs {
@@ -113,6 +195,59 @@ func (c *Ctx) EncodeDecodeAgreement(prop string, s *Slashing, state *types.Named
 					}
 				}
 			case *ssa.Call:
+				if hc, h := moduleHelperCall(x); h != nil && ssa.Value(x) != buf {
+					// a field writer helper: put(buf, <constant position>, state.Field)
+					env := constEnv(hc)
+					var bufP *ssa.Parameter
+					for i, p := range h.Params {
+						if i < len(hc.Call.Args) && hc.Call.Args[i] == buf {
+							bufP = p
+						}
+					}
+					if bufP == nil {
+						continue
+					}
+					for _, hb := range h.Blocks {
+						for _, hins := range hb.Instrs {
+							pc, ok := hins.(*ssa.Call)
+							if !ok {
+								continue
+							}
+							endian, m := endianOf(pc)
+							if endian == "" || !strings.HasPrefix(m, "PutUint") {
+								continue
+							}
+							sl, isSl := pc.Call.Args[1].(*ssa.Slice)
+							if !isSl || sl.X != ssa.Value(bufP) || sl.Low == nil || sl.High == nil {
+								c.R.Unknown(rule, Fn(h), c.Pos(pc), "the field writer helper writes to a range that is not a slice of its buffer parameter")
+								continue
+							}
+							lo, ok1 := evalIntEnv(sl.Low, env, 0)
+							hi, ok2 := evalIntEnv(sl.High, env, 0)
+							if !ok1 || !ok2 {
+								c.R.Unknown(rule, Fn(h), c.Pos(pc), "the field writer helper's range does not evaluate to constants at this call")
+								continue
+							}
+							fld := ""
+							if cv, ok := pc.Call.Args[2].(*ssa.Convert); ok {
+								for i, p := range h.Params {
+									if ssa.Value(p) == cv.X && i < len(hc.Call.Args) {
+										_, fld = s.stateField(hc.Call.Args[i])
+									}
+								}
+							}
+							if fld == "" {
+								c.R.Fail(rule, Fn(enc), c.Pos(x), "the encoder writes something other than a state field through "+prog.ShortFunc(h), "put(buf, position, state.Field)", nil)
+								continue
+							}
+							if m != "PutUint64" || hi-lo != 8 {
+								c.R.Fail(rule, Fn(enc)+":"+fld, c.Pos(x), fmt.Sprintf("field %s is written with %s into %d bytes", fld, m, hi-lo), "8 bytes per int64 field", nil)
+							}
+							encLayout = append(encLayout, layoutEntry{fld, lo, hi, endian})
+						}
+					}
+					continue
+				}
 				endian, m := endianOf(x)
 				if endian == "" || !strings.HasPrefix(m, "PutUint") {
 					continue
@@ -177,6 +312,56 @@ func (c *Ctx) EncodeDecodeAgreement(prop string, s *Slashing, state *types.Named
 				continue
 			}
 			fld := fieldNameOf(fa)
+			if hc, h := moduleHelperCall(st.Val); h != nil {
+				// a field reader helper: get(data, <constant position>) = int64(Uint64(data[a:b]))
+				env := constEnv(hc)
+				var dataP *ssa.Parameter
+				for i, p := range h.Params {
+					if i < len(hc.Call.Args) && hc.Call.Args[i] == data {
+						dataP = p
+					}
+				}
+				okH := dataP != nil
+				var lo, hi int64
+				endian := ""
+				for _, ret := range an.Returns(h) {
+					cv, ok := an.Result(ret, 0).(*ssa.Convert)
+					var rc *ssa.Call
+					if ok {
+						rc, _ = cv.X.(*ssa.Call)
+					}
+					if rc == nil {
+						okH = false
+						continue
+					}
+					e, m := endianOf(rc)
+					sl, isSl := rc.Call.Args[1].(*ssa.Slice)
+					if e == "" || m != "Uint64" || !isSl || sl.X != ssa.Value(dataP) || sl.Low == nil || sl.High == nil {
+						okH = false
+						continue
+					}
+					l, ok1 := evalIntEnv(sl.Low, env, 0)
+					hh, ok2 := evalIntEnv(sl.High, env, 0)
+					if !ok1 || !ok2 {
+						okH = false
+						continue
+					}
+					lo, hi, endian = l, hh, e
+				}
+				if !okH || endian == "" {
+					c.R.Fail(rule, Fn(dec)+":"+fld, c.Pos(st), "the decoder reads "+fld+" through a helper in an unrecognised way: "+an.Term(st.Val), "int64(binary.<order>.Uint64(data[a:b]))", nil)
+					continue
+				}
+				decLayout = append(decLayout, layoutEntry{fld, lo, hi, endian})
+				target := ssa.Instruction(st)
+				if x, path := an.Cut(an.CutQuery{From: an.Entry(dec), Target: func(i ssa.Instruction) bool { return i == target },
+					AcceptEdge: func(b *ssa.BasicBlock, i int, a *an.Atom) bool {
+						return a != nil && a.Op == "==" && ((lenIs(a.LV, data) && isIntConst(a.RV)) || (lenIs(a.RV, data) && isIntConst(a.LV)))
+					}}); x != nil {
+					c.R.Fail(rule, Fn(dec)+":"+fld, c.Pos(st), "the record is sliced without its length having been checked (a short record panics)", "length test before slicing", an.PathString(c.Pos, path))
+				}
+				continue
+			}
 			cv, ok := st.Val.(*ssa.Convert)
 			var call *ssa.Call
 			if ok {
@@ -248,6 +433,33 @@ func (c *Ctx) EncodeDecodeAgreement(prop string, s *Slashing, state *types.Named
 			if rets := an.Returns(dec); len(rets) > 0 {
 				esc, _ := NilErrorNeeds(dec, func(x ssa.CallInstruction) bool { return x == ci })
 				_ = esc
+			}
+		}
+	}
+	if !gobOK {
+		// the legacy arm in a helper handed the receiver: decodeLegacy(data, s) = gob.NewDecoder(...).Decode(s)
+		for _, hcI := range Calls(dec, func(ci ssa.CallInstruction) bool { _, h := moduleHelperCall(ci.Value()); return h != nil }) {
+			hc, h := moduleHelperCall(hcI.Value())
+			for i, p := range h.Params {
+				if i >= len(hc.Call.Args) {
+					continue
+				}
+				arg := hc.Call.Args[i]
+				if mi, ok := arg.(*ssa.MakeInterface); ok {
+					arg = mi.X
+				}
+				if arg != ssa.Value(dec.Params[0]) {
+					continue
+				}
+				for _, ci := range Calls(h, func(ci ssa.CallInstruction) bool { return IsCallTo(ci, "(*encoding/gob.Decoder).Decode") }) {
+					a1 := ci.Common().Args[1]
+					if mi, ok := a1.(*ssa.MakeInterface); ok {
+						a1 = mi.X
+					}
+					if a1 == ssa.Value(p) {
+						gobOK = true
+					}
+				}
 			}
 		}
 	}
